@@ -51,7 +51,24 @@ ASSUMPTIONS = [
     "forms set their own text/colour state in a prologue (pdfminer starts a form with a fresh state)",
     "graphicstate.ncolor None is read as 'initial colour'",
 ]
-STATEMENT_STATUS: Dict[str, str] = {}
+STATEMENT_STATUS: Dict[str, str] = {
+    "C05_program": "proved: for every env (fonts, forms), CTM, resources, split into streams: TextModel.runPage = some gl "
+                   "-> Interp.runPage reports exactly gl (induction over programs, any q/Q and form nesting <= fuel)",
+    "C05_program_any_budget": "proved: the same at every larger nesting budget",
+    "C05_step": "proved: one instruction preserves the simulation relation R and yields the same glyphs",
+    "C05_forms": "proved: Interp.runForm = TextModel.runForm at every budget, for any inherited graphics state "
+                 "(domain: the form sets its own text/colour state in a prologue)",
+    "C05_split": "proved: streams one after the other = their concatenation (state, operand stack, glyphs)",
+    "C05_split_page": "proved",
+    "C05_form_frame": "proved: interpreter state of the caller after Do = before, device CTM = caller's CTM",
+    "C05_form_frame_spec": "proved",
+    "C05_illtyped": "proved: an instruction with missing/ill-typed operands (no booleans, no excess) leaves the "
+                    "interpreter state unchanged and shows nothing",
+    "C05_illtyped_spec": "proved (by definition of the spec)",
+    "C05_fuel_stable": "proved: raising the nesting budget never changes a result",
+    "C05_string_displacement": "proved: render_string_horizontal = 9.4.4 displacement for every string",
+    "C05_glyph": "proved: LTChar.__init__ = glyph of the text model",
+}
 
 TOL = F(1, 2 ** 30)
 
@@ -1066,6 +1083,11 @@ def flush(ctx: C.Ctx, batch: list) -> None:
                 continue
             i, field = d
             fail = (field, i, im[1][i] if i < len(im[1]) else None, sp[1][i] if i < len(sp[1]) else None)
+        cls = classify_field(fail[0])
+        seen = ctx.extra.setdefault("failures_by_class", {})
+        seen[cls] = seen.get(cls, 0) + 1
+        if seen[cls] > 3:
+            continue                     # enough minimised witnesses of this kind; the count is in the evidence
         small = shrink(case, fail[0])
         st, det, _ = evaluate(small)
         if st != "fail":
